@@ -22,6 +22,7 @@ type RCase struct {
 	Recv   Win    `json:"recv"`
 	Src    Win    `json:"src"`
 	Shared bool   `json:"shared,omitempty"` // the source lies on the receiver's backing array
+	Same   bool   `json:"same,omitempty"`   // the source is the receiver value itself (with T: its transpose)
 	T      bool   `json:"t,omitempty"`      // the source is passed as T() / TVec()
 	N1     int    `json:"n1,omitempty"`     // Grow: extra rows (GrowSym: extra size); ReuseAs: rows
 	N2     int    `json:"n2,omitempty"`     // Grow: extra columns; ReuseAs: columns
@@ -82,7 +83,15 @@ func checkResize(c RCase) *vk.Failure {
 	usedMeets := false
 	if hasSrc {
 		var sb []float64
-		if c.Shared {
+		if c.Same {
+			c.Src, c.Shared = c.Recv, true
+		}
+		if c.Same {
+			src = recv
+			sb = B0
+			su, _ = c.Src.sets(c.L)
+			usedMeets = true
+		} else if c.Shared {
 			src = c.Src.build(B)
 			sb = B0
 			su, _ = c.Src.sets(c.L)
@@ -185,7 +194,8 @@ func checkResize(c RCase) *vk.Failure {
 		c.Op, c.L, c.Seed, c.Recv, c.Src, c.Shared, c.T, c.N1, c.N2, rel, sizeRel, res.Outcome, res.Text)
 	fail := func(fam, format string, args ...any) *vk.Failure {
 		key := c.Op + "/" + fam
-		if c.Op == "CloneFromVec" && usedMeets && c.Recv.stride() == 1 && c.Src.R <= c.Recv.R && (fam == "operand-modified" || fam == "result-wrong") {
+		if c.Op == "CloneFromVec" && (fam == "operand-modified" || fam == "result-wrong") &&
+			((usedMeets && c.Recv.stride() == 1 && c.Src.R <= c.Recv.R) || (c.Same && c.T)) {
 			// recorded defect: the receiver's own storage is reused without
 			// checking that the source overlaps it.
 			key = "defect/clonefromvec-reuses-storage-overlapping-source"
@@ -380,6 +390,8 @@ func resizeCases(thorough bool) []RCase {
 			cases = append(cases, RCase{Op: "CloneFromVec", L: L, Recv: r, Src: Win{K: "V", VM: "new", R: n, C: 1, PS: 1, PR: n}})
 		}
 		cases = append(cases, RCase{Op: "CloneFromVec", L: L, Recv: r, Src: Win{K: "V", VM: "col", PS: 2, PR: r.R + 2, J: 1, R: r.R + 2, C: 1}, T: true})
+		cases = append(cases, RCase{Op: "CloneFromVec", L: L, Recv: r, Src: r, Same: true, Shared: true})
+		cases = append(cases, RCase{Op: "CloneFromVec", L: L, Recv: r, Src: r, Same: true, Shared: true, T: true})
 		for n := 0; n <= L+1; n += 1 {
 			cases = append(cases, RCase{Op: "ReuseAsVec", L: L, Recv: r, N1: n})
 		}
